@@ -133,7 +133,8 @@ def ff_guards(eng, res, rule="R-FF-GUARDS"):
     res.ob(rule, f, "returns-assignment-and-mol", "the assignment is returned together with the typed molecule", f.node, ok)
     # default entry point
     p = eng.prog.cls("MolGen").method("forcefield_types")
-    ok = p is not None and [src(r.value) for r in own_nodes(p.node) if isinstance(r, ast.Return)] == ["self.get_forcefield_types(smarts_filename=None, nb_filename=None)"]
+    ok = p is not None and [src(r.value) for r in own_nodes(p.node) if isinstance(r, ast.Return)] in (
+        ["self.get_forcefield_types(smarts_filename=None, nb_filename=None)"], ["self.get_forcefield_types(None, None)"], ["self.get_forcefield_types()"])
     res.ob(rule, p or f, "default-entry", "the property uses the bundled files (both names None)", (p or f).node, ok)
     # assignment routine
     g = eng.prog.func("forcefield_helper.SMARTS_ASSIGNMENTS.get_type_assignments")
